@@ -12,7 +12,7 @@ Definition K (v : pyval) := PNode CConst v [].
 
 (* \+a == not a, but the functor is part of the hash key *)
 Theorem C18_not_functor_hash_refuted :
-  exists s t, wf s = true /\ wf t = true /\ eq_m repr_m s t = true /\ hk false s <> hk false t.
+  exists s t, wf s = true /\ wf t = true /\ eq_m (repr_m false) s t = true /\ hk false s <> hk false t.
 Proof.
   exists (PNode CNot (VStr "\+") [a_]), (PNode CNot (VStr "not") [a_]).
   vm_compute. repeat split; discriminate.
@@ -25,29 +25,29 @@ Proof. vm_compute. split; reflexivity. Qed.
 
 (* Constant('a') == Term('a') (string comparison), hash('a') vs hash(('a',0,0)) *)
 Theorem C18_constant_vs_term_hash_refuted :
-  exists s t, wf s = true /\ wf t = true /\ eq_m repr_m s t = true /\ eq_m repr_m t s = true /\
+  exists s t, wf s = true /\ wf t = true /\ eq_m (repr_m false) s t = true /\ eq_m (repr_m false) t s = true /\
               hk false s <> hk false t.
 Proof. exists (K (VStr "a")), a_. vm_compute. repeat split; discriminate. Qed.
 
 (* Var('X') == Term('X') *)
 Theorem C18_var_vs_term_hash_refuted :
-  exists s t, wf s = true /\ wf t = true /\ eq_m repr_m s t = true /\ hk false s <> hk false t.
+  exists s t, wf s = true /\ wf t = true /\ eq_m (repr_m false) s t = true /\ hk false s <> hk false t.
 Proof. exists (PNode CVar (VStr "X") []), (PNode CTerm (VStr "X") []). vm_compute. repeat split; discriminate. Qed.
 
 (* Constant(1) == Constant('1') *)
 Theorem C18_constant_value_type_hash_refuted :
-  exists s t, wf s = true /\ wf t = true /\ eq_m repr_m s t = true /\ hk false s <> hk false t.
+  exists s t, wf s = true /\ wf t = true /\ eq_m (repr_m false) s t = true /\ hk false s <> hk false t.
 Proof. exists (K (VInt 1)), (K (VStr "1")). vm_compute. repeat split; discriminate. Qed.
 
 (* Constant('\+a') == Not('\+', a) but not the other way round *)
 Theorem C18_symmetry_refuted :
-  exists s t, wf s = true /\ wf t = true /\ eq_m repr_m s t = true /\ eq_m repr_m t s = false.
+  exists s t, wf s = true /\ wf t = true /\ eq_m (repr_m false) s t = true /\ eq_m (repr_m false) t s = false.
 Proof. exists (K (VStr "\+a")), (PNode CNot (VStr "\+") [a_]). vm_compute. repeat split. Qed.
 
 (* f(1) == Constant('f(1)') == f('1') but f(1) != f('1') *)
 Theorem C18_transitivity_refuted :
   exists s t u, wf s = true /\ wf t = true /\ wf u = true /\
-                eq_m repr_m s t = true /\ eq_m repr_m t u = true /\ eq_m repr_m s u = false.
+                eq_m (repr_m false) s t = true /\ eq_m (repr_m false) t u = true /\ eq_m (repr_m false) s u = false.
 Proof.
   exists (f_ [K (VInt 1)]), (K (VStr "f(1)")), (f_ [K (VStr "1")]). vm_compute. repeat split.
 Qed.
@@ -55,13 +55,13 @@ Qed.
 (* 'a' = a unifies (signature strips quotes) but 'a' == a is false *)
 Theorem C18_quoted_atom_eq_vs_unify_refuted :
   exists s t, wf s = true /\ wf t = true /\ ground s = true /\ ground t = true /\
-              unify_ident s t = true /\ eq_m repr_m s t = false.
+              unify_ident s t = true /\ eq_m (repr_m false) s t = false.
 Proof. exists (PNode CTerm (VStr "'a'") []), a_. vm_compute. repeat split. Qed.
 
 (* \+a == not a but they do not unify *)
 Theorem C18_not_functor_eq_vs_unify_refuted :
   exists s t, wf s = true /\ wf t = true /\ ground s = true /\ ground t = true /\
-              eq_m repr_m s t = true /\ unify_ident s t = false.
+              eq_m (repr_m false) s t = true /\ unify_ident s t = false.
 Proof.
   exists (PNode CNot (VStr "\+") [a_]), (PNode CNot (VStr "not") [a_]). vm_compute. repeat split.
 Qed.
@@ -69,11 +69,11 @@ Qed.
 (* f(Constant('a')) unifies with f(Term('a')) but they are not equal *)
 Theorem C18_class_tag_eq_vs_unify_refuted :
   exists s t, wf s = true /\ wf t = true /\ ground s = true /\ ground t = true /\
-              unify_ident s t = true /\ eq_m repr_m s t = false.
+              unify_ident s t = true /\ eq_m (repr_m false) s t = false.
 Proof. exists (f_ [K (VStr "a")]), (f_ [a_]). vm_compute. repeat split. Qed.
 
 (* Constant('f(a)') == f(a) but they do not unify *)
 Theorem C18_constant_str_eq_vs_unify_refuted :
   exists s t, wf s = true /\ wf t = true /\ ground s = true /\ ground t = true /\
-              eq_m repr_m s t = true /\ unify_ident s t = false.
+              eq_m (repr_m false) s t = true /\ unify_ident s t = false.
 Proof. exists (K (VStr "f(a)")), (f_ [a_]). vm_compute. repeat split. Qed.
